@@ -159,13 +159,10 @@ Hypothesis Hp : perm_on n p.
 Definition pagerank_residual (A : mat Q) (r : vec Q) (d : Q) (i : nat) : Q :=
   eval_v prims n t_pagerank_residual A r [d] i.
 Definition solves_pagerank A r d : Prop := forall i, (i < n)%nat -> pagerank_residual A r d i == 0.
-(* FULL statement (not proved: needs uniqueness of the solution, i.e. non-singularity of I - d A D^-1, and
-   says nothing about LAPACK's rounding): any solver of the equation commutes with renumbering *)
-Definition pagerank_full_statement : Prop :=
-  forall (solver : mat Q -> Q -> vec Q), (forall A d, solves_pagerank A (solver A d) d) ->
-  forall A d i, (i < n)%nat -> solver (pm p A) d i == solver A d (p i).
-(* PROVED: the renumbered solution solves the renumbered equation *)
-Theorem pagerank_equation_partial A r d : solves_pagerank A r d -> solves_pagerank (pm p A) (pv p r) d.
+(* the FULL statement (what a solver returns commutes with the renumbering, for 0 <= d < 1 and A >= 0, normalisation
+   included) is pagerank_full_statement in Proofs/SymTermFull.v, proved there through C18's uniqueness theorem *)
+(* the renumbered solution solves the renumbered equation (every A, every d) *)
+Theorem pagerank_equation A r d : solves_pagerank A r d -> solves_pagerank (pm p A) (pv p r) d.
 Proof.
   intros H i Hi. unfold pagerank_residual.
   rewrite (measure_equivariant_vector prims prims_proper n p Hp t_pagerank_residual A r [d] i).
@@ -175,12 +172,9 @@ Qed.
 Definition eigen_residual (A : mat Q) (v : vec Q) (lam : Q) (i : nat) : Q :=
   eval_v prims n t_eigen_residual A v [lam] i.
 Definition is_eigenvector A v lam : Prop := forall i, (i < n)%nat -> eigen_residual A v lam i == 0.
-(* FULL statement (not proved: the eigenvector of the largest eigenvalue is unique up to scale only when that
-   eigenvalue is simple; eig() is LAPACK) *)
-Definition eigenvector_full_statement : Prop :=
-  forall (solver : mat Q -> vec Q) (lam : mat Q -> Q), (forall A, is_eigenvector A (solver A) (lam A)) ->
-  forall A i, (i < n)%nat -> solver (pm p A) i == solver A (p i).
-Theorem eigenvector_equation_partial A v lam : is_eigenvector A v lam -> is_eigenvector (pm p A) (pv p v) lam.
+(* the FULL statement (Perron hypotheses: connected undirected non-negative network, non-negative non-zero eigenvector of
+   fixed norm) is eigenvector_full_statement in Proofs/SymTermFull.v, proved there *)
+Theorem eigenvector_equation A v lam : is_eigenvector A v lam -> is_eigenvector (pm p A) (pv p v) lam.
 Proof.
   intros H i Hi. unfold eigen_residual.
   rewrite (measure_equivariant_vector prims prims_proper n p Hp t_eigen_residual A v [lam] i).
